@@ -6,6 +6,10 @@ HERE = os.path.dirname(os.path.dirname(os.path.abspath(__file__)))
 props = [json.loads(l) for l in open(os.path.join(HERE, "properties.jsonl"))]
 
 CLAIMS = {
+ "C16": dict(
+  technique="custom static checker: taint rule from stored strings to writeToFile through printf-style formats (every %s argument must be entity-encoded), escaper table/order extraction, XML parse of the literal document skeleton assembled from every path combination, counter pairing on CFG paths",
+  text="Decides that every value inserted into the JUnit document is entity-encoded (or an enumerated safe source), that the encoder's table and order are right, that the literal skeleton of every path combination is well-formed with failure/skipped elements under exactly the right path conditions, that counters are incremented/reset with the events they count, and that the file name passes the sanitiser and the file is truncated. Acceptance of concrete output by an XML parser for arbitrary text is not decided.",
+  note="Trusted: clang 14 AST/CFG; printf %s copies verbatim; the platform time string is XML-safe."),
  "C20": dict(
   technique="custom static checker: taint rule over the TeamCity writer methods (every non-literal string argument of print must pass printEscaped), exhaustive constant folding of the escaper's loop body over all 255 char values against the TeamCity escape table, per-path literal framing grammar, call pairing",
   text="Decides escaping completeness for every service message writer, the exact escape table for every char value (exhaustive finite partition), that each path of each writer emits only complete ##teamcity[...] messages naming the stored test/group, and that start/finish callbacks bracket runOneTest on every path. Balance over concrete runs follows from C02.R4 and is not decided as a run-time count.",
